@@ -277,6 +277,9 @@ func (r *c02Runner) prepare(e *Enc, d uint8, k int) {
 	}
 }
 
+// l8: boundary values of a byte (nibble and sign boundaries, BCD boundaries, single bits)
+var l8 = []uint8{0x00, 0x01, 0x02, 0x04, 0x08, 0x09, 0x0A, 0x0F, 0x10, 0x20, 0x40, 0x55, 0x66, 0x7E, 0x7F, 0x80, 0x81, 0x90, 0x99, 0x9A, 0xA0, 0xAA, 0xEF, 0xF0, 0xFE, 0xFF}
+
 func c02FSet(quick bool) []uint8 {
 	if !quick {
 		fs := make([]uint8, 256)
@@ -319,7 +322,7 @@ func checkC02(c *Ctx) {
 		}
 	}
 	fs := c02FSet(c.Quick())
-	c.Rule = fmt.Sprintf("for each of the %d encodings refz80 classifies as ALU8/INC/DEC/NEG/CPL/DAA/SCF/CCF/RLCA..RRA/CB rotate-shift/RLD/RRD/BIT/SET/RES: the complete cube of the values the operation reads (A x operand x F for binary forms and RLD/RRD, operand x F for unary forms and BIT/SET/RES, A x F for accumulator forms), operand delivered through the encoding's own route (register, (HL), immediate, IXH..IYL, (IX+d)/(IY+d) with d in {00,01,7F,80}); F over %d values (quick: C,H,N in all combinations x other bits all-0/all-1; thorough: all 256); all other registers hold distinct junk from a base vector and must be unchanged. Non-trivial = result or flags differ from the inputs (counted).", len(encs), len(fs))
+	c.Rule = fmt.Sprintf("for each of the %d encodings refz80 classifies as ALU8/INC/DEC/NEG/CPL/DAA/SCF/CCF/RLCA..RRA/CB rotate-shift/RLD/RRD/BIT/SET/RES: the complete cube of the values the operation reads (A x operand x F for binary forms and RLD/RRD, operand x F for unary forms and BIT/SET/RES, A x F for accumulator forms), operand delivered through the encoding's own route (register, (HL), immediate, IXH..IYL, (IX+d)/(IY+d) with d in {00,01,7F,80}); F over %d values (quick: C,H,N in all combinations x other bits all-0/all-1, plus a second pass over 26 boundary values of A and of the operand x ALL 256 F; thorough: all 256 F on the complete cube); all other registers hold distinct junk from a base vector and must be unchanged. Non-trivial = result or flags differ from the inputs (counted).", len(encs), len(fs))
 	c.Bound = fmt.Sprintf("complete A x operand cube, %d F values", len(fs))
 	bg := obsBackground(c)
 	type job struct {
@@ -358,6 +361,30 @@ func checkC02(c *Ctx) {
 				aVals = 256
 			}
 			failed := false
+			if c.Quick() {
+				// quick tier, second pass: boundary values of A and the operand x ALL 256 incoming F
+				for _, a8 := range l8 {
+					av := a8
+					if !needA {
+						av = r.base.A
+					}
+					for _, v := range l8 {
+						for f := 0; f < 256 && !failed; f++ {
+							d := r.one(av, v, uint8(f))
+							ev++
+							if d != nil {
+								c.Report("c02/cube:"+j.e.Name, int64(av)<<16|int64(v)<<8|int64(f), "", c02Case{j.e.Name, j.d, av, v, uint8(f), int(ji) % 4}, cloneStrings(d))
+								failed = true
+								atomic.AddInt32(&failedEnc, 1)
+							}
+							nt++
+						}
+					}
+					if !needA {
+						break
+					}
+				}
+			}
 			for a := 0; a < aVals && !failed; a++ {
 				av := uint8(a)
 				if !needA {
